@@ -327,7 +327,10 @@ SPEC = {
         {"fn": "prefixed_total", "slices": [{}], "tcond": 900, "tpath": 60, "bound": "5 prefixes + len <= 3"},
         {"fn": "hostile_turn", "tiers": ("quick",), "slices": [{"mode": m, "pos": p, "fix2": 1} for m in ("plain", "single", "value", "multistep", "general", "passthrough") for p in range(_POS[m])], "tcond": 900, "tpath": 60, "bound": "2 tokens (third fixed to empty)",
          "smoke": [{"slice": {"mode": "plain", "pos": 1}, "args": dict(k0=6, k1=2, k2=7)}, {"slice": {"mode": "value", "pos": 1}, "args": dict(k0=3, k1=4, k2=0)}]},
-        {"fn": "hostile_turn", "tiers": ("thorough",), "slices": [{"mode": m, "pos": p, "first": f} for m in ("plain", "single", "value", "multistep", "general", "passthrough") for p in range(_POS[m]) for f in range(len(ALPHABET)) if not (m == "multistep" and p == 1 and f == EVAL_ERR)], "tcond": 3000, "tpath": 60, "bound": "3 tokens, partitioned on the first"},
+        {"fn": "hostile_turn", "tiers": ("thorough",), "slices": [{"mode": m, "pos": p, "first": f} for (m, p) in (("plain", 1), ("multistep", 1), ("value", 1), ("general", 0)) for f in range(len(ALPHABET)) if not (m == "multistep" and p == 1 and f == EVAL_ERR)], "tcond": 3000, "tpath": 60,
+         "bound": "3 tokens, partitioned on the first, at the next-step call (plain and multi-step), the value call and the general call"},
+        {"fn": "hostile_turn", "tiers": ("thorough",), "slices": [{"mode": m, "pos": p, "fix2": 1} for m in ("plain", "single", "value", "multistep", "general", "passthrough") for p in range(_POS[m])], "tcond": 900, "tpath": 60,
+         "bound": "2 tokens at every call position of every mode"},
         {"fn": "hostile_turn", "tiers": ("quick", "thorough"), "slices": [{"mode": "multistep", "pos": 1, "first": f} for f in (6, 7, 12, 16, 18, 19, 20, 21, 22, 23, 24, 26)], "tcond": 1800, "tpath": 60,
          "bound": "multi-step generation: 3 tokens with the first one a Colang statement token"},
         {"fn": "hostile_known_region", "expect": "known_or_confirmed", "slices": [{"mode": "multistep", "pos": 1, "first": 7}], "tcond": 600, "tpath": 60, "bound": "recorded finding re-found"},
